@@ -17,6 +17,17 @@ def tDollar : Tk := .other "Dollar"
 def tAsterisk : Tk := .other "Asterisk"
 def tEquals : Tk := .other "Equals"
 def tEol : Tk := .other "Eol"
+def tEof : Tk := .other "Eof"
+
+/-- `expect_eol`: an optional comment, then the end of the line (consumed) or of the file (left) -/
+def expectEol : List Tk → Option (List Tk)
+  | .comment _ :: .other "Eol" :: r => some r
+  | .comment _ :: .other "Eof" :: r => some (.other "Eof" :: r)
+  | .other "Eol" :: r => some r
+  | .other "Eof" :: r => some (.other "Eof" :: r)
+  | _ => none
+
+theorem expectEol_eol (r : List Tk) : expectEol (.other "Eol" :: r) = some r := rfl
 
 inductive PKind where
   | singular | plus | star
@@ -197,11 +208,13 @@ def parseTail (fuel : Nat) (ts : List Tk) : Option ((List Dep × List Dep) × Li
         | none => none
         | some ([], _) => none
         | some (s :: ss, ts7) =>
-          match ts7 with
-          | .other "Eol" :: rest => some ((priors, s :: ss), rest)
-          | _ => none
-      | .other "Eol" :: rest => some ((priors, []), rest)
-      | _ => none
+          match expectEol ts7 with
+          | some rest => some ((priors, s :: ss), rest)
+          | none => none
+      | _ =>
+        match expectEol ts5 with
+        | some rest => some ((priors, []), rest)
+        | none => none
   | _ => none
 
 /-- `parse_recipe` after the name, up to and including `expect_eol` -/
